@@ -142,23 +142,63 @@ pub fn ecrts_bounds(wl: &RosWorkload, which: Analysis, loose_blocking: bool) -> 
                     continue;
                 }
                 let chain = wl.chain_of(h);
+                // Two ways of handing a chain's demand to the analysis (a function of the
+                // workload, so a replay file reproduces it): one RBF with the summed WCET, or
+                // one RBF per callback (all on the chain's source arrival model), aggregated
+                // — `demand::Aggregate` for even, `demand::Slice` for odd chain heads.
+                let all_w: u64 = wl.cbs.iter().map(|c| c.wcet).sum();
+                let per_callback = (all_w + n as u64) % 2 == 1;
                 let o = outcome_of(guarded(|| {
                     let sup = wl.supply.build();
                     let src = wl.cbs[h].arr.as_ref().unwrap();
                     let last = *chain.last().unwrap();
                     let total: u64 = chain.iter().map(|c| wl.cbs[*c].wcet).sum();
                     let last_rbf = rbf(src, wl.cbs[last].wcet);
-                    let prefix_rbf = rbf(src, total - wl.cbs[last].wcet);
-                    let full_rbf = rbf(src, total);
-                    let others: Vec<DynRbf> = heads
-                        .iter()
-                        .filter(|o| **o != h)
-                        .map(|o| {
-                            let tot: u64 = wl.chain_of(*o).iter().map(|c| wl.cbs[*c].wcet).sum();
-                            rbf(wl.cbs[*o].arr.as_ref().unwrap(), tot)
-                        })
-                        .collect();
-                    ros2::rta_processing_chain(&*sup, &last_rbf, &prefix_rbf, &full_rbf, &Aggregate::new(others), limit)
+                    if !per_callback {
+                        let prefix_rbf = rbf(src, total - wl.cbs[last].wcet);
+                        let full_rbf = rbf(src, total);
+                        let others: Vec<DynRbf> = heads
+                            .iter()
+                            .filter(|o| **o != h)
+                            .map(|o| {
+                                let tot: u64 = wl.chain_of(*o).iter().map(|c| wl.cbs[*c].wcet).sum();
+                                rbf(wl.cbs[*o].arr.as_ref().unwrap(), tot)
+                            })
+                            .collect();
+                        ros2::rta_processing_chain(&*sup, &last_rbf, &prefix_rbf, &full_rbf, &Aggregate::new(others), limit)
+                    } else {
+                        let prefix: Vec<DynRbf> = chain[..chain.len() - 1]
+                            .iter()
+                            .map(|c| rbf(src, wl.cbs[*c].wcet))
+                            .collect();
+                        let full: Vec<DynRbf> = chain.iter().map(|c| rbf(src, wl.cbs[*c].wcet)).collect();
+                        let mut others: Vec<DynRbf> = Vec::new();
+                        for o in heads.iter().filter(|o| **o != h) {
+                            let osrc = wl.cbs[*o].arr.as_ref().unwrap();
+                            for c in wl.chain_of(*o) {
+                                others.push(rbf(osrc, wl.cbs[c].wcet));
+                            }
+                        }
+                        if h % 2 == 0 {
+                            ros2::rta_processing_chain(
+                                &*sup,
+                                &last_rbf,
+                                &Aggregate::new(prefix),
+                                &Aggregate::new(full),
+                                &Aggregate::new(others),
+                                limit,
+                            )
+                        } else {
+                            ros2::rta_processing_chain(
+                                &*sup,
+                                &last_rbf,
+                                &response_time_analysis::demand::Slice::of(&prefix[..]),
+                                &response_time_analysis::demand::Slice::of(&full[..]),
+                                &response_time_analysis::demand::Slice::of(&others[..]),
+                                limit,
+                            )
+                        }
+                    }
                 }));
                 b.chain[h] = o.bound();
                 b.outcomes.push((Entity::Chain(h), o));
